@@ -55,3 +55,42 @@ func HashFiles(absolutePackagePath string, fileList []string) (string, error) {
 	// Return the combined hash as a hexadecimal string.
 	return combinedHasher.SumString(), nil
 }
+
+// hashInputFiles computes a combined hash over the paths and contents of the
+// given files relative to packagePath. Unlike HashFiles, every file is framed
+// with its path and size so that bytes moving from the end of one file to the
+// start of the next, or content moving to a differently named file, change the hash.
+func hashInputFiles(absolutePackagePath string, fileList []string) (string, error) {
+	combinedHasher := GetHasher()
+	// Ensure consistent ordering.
+	sortedFiles := append([]string{}, fileList...)
+	sort.Strings(sortedFiles)
+
+	for _, file := range sortedFiles {
+		fullPath := filepath.Join(absolutePackagePath, file)
+		f, err := os.Open(fullPath)
+		if err != nil {
+			if os.IsNotExist(err) {
+				// NOTE: If a file does not exist in the package, we skip it (see HashFiles).
+				continue
+			}
+			return "", fmt.Errorf("failed opening input file for hashing: %w", err)
+		}
+
+		info, err := f.Stat()
+		if err != nil {
+			f.Close()
+			return "", fmt.Errorf("failed to stat input file for hashing: %w", err)
+		}
+
+		writeField(combinedHasher, file)
+		_, _ = combinedHasher.WriteString(fmt.Sprintf("%d:", info.Size()))
+		if _, err := io.Copy(combinedHasher, f); err != nil {
+			f.Close()
+			return "", err
+		}
+		f.Close()
+	}
+
+	return combinedHasher.SumString(), nil
+}
